@@ -14,3 +14,5 @@ import Argot.Props.C14
 import Argot.Props.C02
 import Argot.Props.C10
 import Argot.Props.C18
+import Argot.Props.C07
+import Argot.Props.C17
